@@ -8,6 +8,8 @@ pub struct InternArea {
     interners: Vec<BoxI>,
     /// oracle: per interner, raw key -> string as first issued
     issued:    Vec<Vec<(u32, String)>>,
+    by_raw:    Vec<std::collections::HashMap<u32, String>>,
+    by_str:    Vec<std::collections::HashMap<String, u32>>,
 }
 
 impl Area for InternArea {
@@ -21,6 +23,8 @@ impl Area for InternArea {
                 Some(i) => {
                     self.interners.push(i);
                     self.issued.push(vec![]);
+                    self.by_raw.push(Default::default());
+                    self.by_str.push(Default::default());
                     cx.count(&format!("backend.{}", backend));
                     format!("i{}", self.interners.len() - 1)
                 }
@@ -54,21 +58,42 @@ impl Area for InternArea {
                                     other => cx.fail("C10", format!("resolve(intern({})) = {:?}", hex(&text), other)),
                                 }
                                 let iss = &mut self.issued[i];
-                                for (r0, s0) in iss.iter() {
-                                    if (*r0 == raw) != (*s0 == text) {
-                                        cx.fail(
-                                            "C10",
-                                            format!("keys {} / {} for strings {} / {}", r0, raw, hex(s0), hex(&text)),
-                                        );
+                                // same key iff same string (against everything issued so far; indexed both ways)
+                                let by_raw = &mut self.by_raw[i];
+                                let by_str = &mut self.by_str[i];
+                                match (by_raw.get(&raw), by_str.get(&text)) {
+                                    (Some(s0), _) if *s0 != text => {
+                                        cx.fail("C10", format!("keys {} / {} for strings {} / {}", raw, raw, hex(s0), hex(&text)))
                                     }
+                                    (_, Some(r0)) if *r0 != raw => {
+                                        cx.fail("C10", format!("keys {} / {} for strings {} / {}", r0, raw, hex(&text), hex(&text)))
+                                    }
+                                    _ => {}
                                 }
-                                if iss.iter().any(|(r0, _)| *r0 == raw) {
+                                if by_raw.contains_key(&raw) {
                                     cx.count("intern.repeat");
                                     cx.nontrivial();
                                 } else {
                                     iss.push((raw, text.clone()));
+                                    by_raw.insert(raw, text.clone());
+                                    by_str.insert(text.clone(), raw);
                                 }
-                                for (r0, s0) in iss.iter() {
+                                // stability: every key issued so far still resolves to its string (all of them while
+                                // the table is small, a spread sample plus the oldest and newest ones afterwards)
+                                let n = iss.len();
+                                let idxs: Vec<usize> = if n <= 600 {
+                                    (0..n).collect()
+                                } else {
+                                    let mut v: Vec<usize> = (0..8).chain(n - 8..n).collect();
+                                    let mut x = (raw as usize).wrapping_mul(2654435761) ^ n;
+                                    for _ in 0..16 {
+                                        x = x.wrapping_mul(6364136223846793005).wrapping_add(1442695040888963407);
+                                        v.push((x >> 20) % n);
+                                    }
+                                    v
+                                };
+                                for ix in idxs {
+                                    let (r0, s0) = &iss[ix];
                                     let k0 = TokenKey::try_from_u32(*r0).unwrap();
                                     let now = catch(|| int.resolve(k0).to_string());
                                     if now.as_deref() != Ok(s0.as_str()) {
